@@ -529,7 +529,8 @@ func TestVerif_C09_pool(t *testing.T) {
 					emit("SC", strconv.Itoa(c))
 				}
 			case x < 92:
-				if c := pickConn(func(i int) bool { return r.Intn(3) == 0 || sim.fakes[i].closed.Load() }); c >= 0 {
+				// removeIdleConn is only ever called on a closed connection (readLoop's exit handler)
+				if c := pickConn(func(i int) bool { return sim.fakes[i].closed.Load() }); c >= 0 {
 					emit("RI", strconv.Itoa(c))
 				}
 			case x < 97:
